@@ -242,6 +242,8 @@ type dataCol struct {
 
 const noVal = -99
 
+var injectN int
+
 // ensureIndex loads the dataset into a fresh index of the cluster (once per data key).
 // partitions: the partitions of the S shards in that index.
 func (e *sysEnv) ensureIndex(sc *sysCluster, key string, data []dataCol, counts [][]int, nshards int, owner []int) (string, []uint64, error) {
@@ -555,6 +557,14 @@ func (e *sysEnv) runSystem(c *sysCase, res *behav.Result) (fails []sysFail, inco
 	}
 	if place == nil {
 		return nil, "behaviour without a Place step"
+	}
+	// test of the retry policy itself: VERIF_INJECT_ENV=k makes the first attempt of every k-th case fail
+	// like an environmental hiccup
+	if k := behav.EnvInt("VERIF_INJECT_ENV", 0); k > 0 && res != nil && c.DelayUs == 0 {
+		injectN++
+		if injectN%k == 0 {
+			return nil, "injected environmental failure"
+		}
 	}
 	n := place.Int("nodes")
 	owner := place.Ints("owner")
@@ -881,6 +891,13 @@ func TestC17System(t *testing.T) {
 	max := behav.EnvInt("VERIF_MAX_CASES", 0)
 	var distinct behav.Distinct
 	selfTested := false
+	skipped, ran, lastSkip := 0, 0, ""
+	defer func() {
+		// skipped cases make the run inconclusive only when they are more than 2 % (or nothing ran)
+		if ran == 0 || skipped*50 > ran+skipped {
+			res.SetInconclusive(fmt.Sprintf("%d of %d cases could not be set up / ordered in this environment (last: %s)", skipped, ran+skipped, lastSkip))
+		}
+	}()
 	for i, b := range behs {
 		if max > 0 && i >= max {
 			break
@@ -900,18 +917,49 @@ func TestC17System(t *testing.T) {
 		} else if nodes == 3 && h == 1 {
 			c.Replicas = 2
 		}
+		// One environmental hiccup (a cluster message that times out on an overloaded machine, a gate
+		// that cannot be ordered in time, a query that errors) must not decide the run: such a case is
+		// tried up to 3 times, with a fresh index, a back-off and wider gate margins. A disagreement
+		// with the specification is reported at once and never retried away.
 		var fails []sysFail
 		var inc string
-		pv, stack := behav.Protect(func() { fails, inc = env.runSystem(c, res) })
-		if pv != nil {
-			ctl.disarm()
-			if behav.PanicInCode(stack) {
-				fails = append(fails, sysFail{"?", "panic", fmt.Sprintf("panic: %v\n%s", pv, stack)})
-			} else {
-				res.SetInconclusive(fmt.Sprintf("harness panic: %v\n%s", pv, stack))
-				return
+		for attempt := 0; attempt < 3; attempt++ {
+			if attempt > 0 {
+				time.Sleep(time.Duration(attempt) * 500 * time.Millisecond)
+				c.DelayUs = []int{0, 3000, 10000}[attempt]
+				res.Cover("retried_env")
 			}
+			fails, inc = nil, ""
+			pv, stack := behav.Protect(func() { fails, inc = env.runSystem(c, res) })
+			if pv != nil {
+				ctl.disarm()
+				if behav.PanicInCode(stack) {
+					fails = append(fails, sysFail{"?", "panic", fmt.Sprintf("panic: %v\n%s", pv, stack)})
+				} else {
+					res.SetInconclusive(fmt.Sprintf("harness panic: %v\n%s", pv, stack))
+					return
+				}
+			}
+			envOnly := inc != "" || len(fails) > 0
+			for _, f := range fails {
+				if f.symptom != "error" {
+					envOnly = false
+				}
+			}
+			if !envOnly {
+				break
+			}
+			env.forget(c) // the case's index may be half-built or half-restored: start from a new one
 		}
+		if inc != "" && realFailures(fails) == 0 {
+			// still not set up / not ordered after three attempts: skipped, counted
+			skipped++
+			res.Cover("skipped_env")
+			lastSkip = inc
+			continue
+		}
+		ran++
+		inc = ""
 		res.CountEval()
 		res.Cover(fmt.Sprintf("cluster/%dx%d", nodes, map[bool]int{true: c.Replicas, false: nodes}[c.Replicas > 0]))
 		if distinct.Add(mustJSON(b)) {
@@ -920,19 +968,40 @@ func TestC17System(t *testing.T) {
 		if i < 2 {
 			res.AddSample(placeString(c))
 		}
-		if inc != "" {
-			res.SetInconclusive(inc)
-		}
 		report(c, fails)
-		if !selfTested && len(fails) == 0 && inc == "" {
-			selfTested = true
+		if !selfTested && len(fails) == 0 {
 			c2 := *c
 			c2.Corrupt = true
-			if f2, _ := env.runSystem(&c2, nil); len(f2) == 0 {
-				res.SetInconclusive("binding self-test: a corrupted expected value was not noticed")
+			f2, inc2 := env.runSystem(&c2, nil)
+			if inc2 == "" { // (otherwise the self-test is tried on the next case)
+				selfTested = true
+				if realFailures(f2) == 0 {
+					res.SetInconclusive("binding self-test: a corrupted expected value was not noticed")
+				}
+				res.Cover("selftest")
 			}
-			res.Cover("selftest")
 		}
+	}
+}
+
+func realFailures(fails []sysFail) int {
+	n := 0
+	for _, f := range fails {
+		if f.symptom != "error" {
+			n++
+		}
+	}
+	return n
+}
+
+// forget drops the cached indexes of the case's cluster, so that a retry loads the data anew.
+func (e *sysEnv) forget(c *sysCase) {
+	for _, sc := range e.clusters {
+		for _, name := range sc.indexes {
+			_ = sc.c[0].API.DeleteIndex(context.Background(), name) // best effort: frees its files
+		}
+		sc.indexes = map[string]string{}
+		sc.order = nil
 	}
 }
 
